@@ -7,7 +7,7 @@ V = os.path.dirname(os.path.dirname(os.path.abspath(__file__)))
 CLAIMED = {
  "C02": ("bounded model checking (Kani/CBMC+CaDiCaL) of BootInformation::load on a fully symbolic 64-byte region against a decision-table oracle",
          "For every content of a 64-byte region with any declared size 0..=64 the solver shows load() returns exactly the specified outcome (Ok / ShorterThanHeader / MissingPadding / NoEndTag), never panics, and reports start/end/size exactly; null pointer separately.",
-         "dev-profile semantics; region <= 64 bytes; memory behind the pointer is as large as declared"),
+         "dev-profile semantics; region <= 64 bytes (thorough: 136 and 4096 bytes); memory behind the pointer is as large as declared"),
  "C06": ("symbolic execution of Builder::build's MIR (own MIR->z3 engine) with symbolic slot occupancy: solver decides that exactly the set slots' byte views, each once, plus one end tag reach new_boxed; composed with Kani lemmas for new_boxed (C16), as_bytes/constructor images (C07) and load/walk (C02, C03)",
          "For every slot occupancy with <= 2 tags present or <= 1 absent (Vec slots 0..2 elements; thorough: <= 3, dev+release MIR) the sequence handed to new_boxed contains each supplied tag's byte view exactly once, Vec kinds in call order, nothing from unset slots, and one end tag last; counterexample occupancies are replayed through the real builder natively.",
          "Kani cannot compile multiboot2::Builder (ICE on ElfSectionsTag's layout) so the byte-level round trip is compositional; summaries: Vec/Option/slice::Iter list semantics, as_bytes as uninterpreted view, new_boxed as observation point; setter bodies (one-line slot assignments) not encoded"),
@@ -22,7 +22,7 @@ CLAIMED = {
          "dev-profile semantics; header <= 56 bytes; Debug formatters: thorough tier / compositional"),
  "C10": ("bounded model checking (Kani/CBMC+CaDiCaL): header load on a symbolic 64-byte region vs. decision table; checksum law over three full-width symbolic words",
          "load(): all magic/checksum/length<=64 words, both architectures, outcome equals the specified precedence table, no panic. calc_checksum: congruence and absence of panic for all 2^32 x 2 x 2^32 inputs.",
-         "dev-profile semantics; architecture word in {0,4}; region <= 64 bytes"),
+         "dev-profile semantics; architecture word in {0,4}; region <= 64 bytes (thorough: 136 and 4096 bytes)"),
  "C11": ("bounded model checking (Kani/CBMC+CaDiCaL): lock-step spec walk and differential field decode for the header crate",
          "Valid 56-byte headers: accessors return stored magic/arch/length/checksum, iterator == spec walk from offset 16 (address, type, flags, size, payload extent, exhaustion); every field of the 10 header-tag kinds == little-endian decode at the specified offset; first match / absence over all orders of three tags; information-request lists of 0..5; no panic allowed.",
          "dev-profile semantics; header <= 56 bytes"),
